@@ -889,7 +889,7 @@ func (g *gen) failing(s *txstate, foreign []string) *stmt {
 				g.fillRow(d, cols, r)
 				return fmt.Sprintf("UPSERT INTO %s (%s) VALUES %s", d.name, colList(cols), rowsSQL(cols, []row{r}, d))
 			})
-				if len(t.rows) > 0 {
+			if len(t.rows) > 0 {
 				add("fail-write-in-read-only-tx", func() string { return "DELETE FROM " + d.name })
 			}
 		}
